@@ -51,7 +51,7 @@ def lines_for(it, r, repaired):
     what = b.get("what", "") if k in ("del", "note") else ""
     gw = b.get("what", "").split(" ") if k == "get" else []
     gbits = bit("desc" in gw) + bit("sub" in gw) + bit("data" in gw) + bit(any(x in gw for x in ("del", "tags", "cred")))
-    q = b if k == "set" else {}
+    q = b if k == "set" else (b.get("set") if k == "sub" and isinstance(b.get("set"), dict) else {})
     desc = q.get("desc")
     sub = q.get("sub")
     sbits = bit(desc is not None) + bit(isinstance(desc, dict) and desc.get("private") is not None) + bit(sub is not None) + \
@@ -62,14 +62,16 @@ def lines_for(it, r, repaired):
     fields = [hx(b.get("id", "")), hx(topic), tuid, hx(what), gbits, sbits, str(seq), hx(b.get("event", "") if k == "note" else ""),
               bit(k == "note" and b.get("payload") is not None), bit(bool(b.get("unsub"))), hx(b.get("user", "") if k == "acc" else ""),
               hx(str(b.get("scheme", "")).lower() if k == "login" else ""), hx(str(b.get("tmpscheme", "")).lower() if k == "acc" else ""),
-              "0", "1", hx(obo), bit(obo in ("@U1@", "@U2@")), bit(bool(ex.get("attachments"))), ",".join(hx(s) for s in SCHEMES)]
+              "0", "1", hx(obo), bit(obo in ("@U1@", "@U2@")), bit(bool(ex.get("attachments"))), ",".join(hx(s) for s in SCHEMES),
+              # what the in-topic default-access site reads (driver facts c e x j h t f)
+              "".join(st[i] for i in (15, 17, 19, 21, 23, 25, 27)) if len(st) > 27 else "9000001"]
     if any(f is None for f in fields):
         return None
     return "H %s %%s %s %s %s" % ("1" if repaired else "0", facts, k, " ".join(fields))
 
 
 def impl_class(r):
-    if r["res"].startswith("PANIC"):
+    if r["res"].startswith("PANIC") or r["res"] == "CRASH":      # CRASH: the process died in a hub / topic goroutine
         return "P"
     fr = [f for f in r["frames"] if f[0] in ("c", "m")]
     if not fr:
@@ -108,20 +110,26 @@ def correspondence(ctx, stats):
     mism = []
     predicted = 0
     classes = {}
+    site_counts = {}
     for (cfg, it, r, l1, l0), m1, m0 in zip(cases, rep, unrep):
         ic = impl_class(r)
+        for mc in m0.split("|"):
+            if mc.startswith("P"):
+                # requests on which the model of the code BEFORE the repairs reaches a panic site (the code as it is must not)
+                site_counts[mc] = site_counts.get(mc, 0) + 1
         classes[ic[:2] if ic.startswith("R") else ic] = classes.get(ic[:2] if ic.startswith("R") else ic, 0) + 1
         if ic == "P":
-            # a panic of the implementation at a modelled site must be predicted by the model of the code as it is
+            # the model of the code as it is (all repairs) is proved never to panic (c13_no_panic): a panic of the
+            # implementation is a disagreement; it is "predicted" when the model of the code before the repairs panics here
             if allowed(m0, "P"):
                 predicted += 1
-            else:
-                mism.append((cfg, it, r, "unrepaired-model " + m0, ic))
+            mism.append((cfg, it, r, "model (code as it is) " + m1 + "; model (before the repairs) " + m0, ic))
             continue
         if not allowed(m1, ic) and not allowed(m0, ic):
             mism.append((cfg, it, r, "model " + m1, ic))
     stats["model"] = {"compared": len(cases), "mismatches": len(mism), "impl_panics_predicted_by_unrepaired_model": predicted,
                       "impl_outcome_classes": classes,
+                      "requests_reaching_a_modelled_site_in_the_unrepaired_model": site_counts,
                       "projection": "outcome class per structured request: panic | silent | first {ctrl} code / {meta}; model run under all values of the oracles (o_reject, o_store_err); requests of a root session with extra.obo and {hi} are not compared"}
     if mism and not ctx.violations:
         cfg, it, r, mc, ic = mism[0]
